@@ -108,7 +108,9 @@ Theorem C19_prepare_only_after_unprepared : forall c s o s' ev,  step c s o = (s
                         a_prep a = false /\ a_host a = h).
 Proof.
   intros c s o s' ev H. split.
-  - intros h qs ks cz Hin. destruct (step_sent _ _ _ _ _ _ _ _ H Hin) as [[_ [cl E]]|(k & t & -> & N & T & _)]; [discriminate|].
+  - intros h qs ks cz Hin.
+    destruct (step_sent _ _ _ _ _ _ _ _ H Hin) as [[_ [cl E]]|[(k & t & -> & N & T & _)|(i & k & tag & dcl & [|] & a & _ & _ & _ & T & _)]];
+      [discriminate| |cbn in T; destruct T as (_ & E & _); discriminate|cbn in T; contradiction].
     exists k. split; [reflexivity|]. destruct t as [[|] h0|h0 qs0 ks0|h0 [| | |id| | | | |]]; cbn in T; try contradiction;
       destruct T as (-> & E & _); try discriminate. inversion E; subst. exact N.
   - intros h qs ks Hin. destruct (step_queue _ _ _ _ _ _ H Hin) as [G|(i & r & a & -> & N & D & G)]; [left; exact G|].
@@ -120,8 +122,8 @@ Print Assumptions C19_prepare_only_after_unprepared.
 (* non-vacuity: UNPREPARED from host 1 -> PREPARE to 1 (keyspace carried on v5) -> PREPARED same id -> re-sent to 1 -> rows;
    and on v4 a PREPARED with another id fails the request and nothing more is sent *)
 Example C19_nonvacuous :
-  let c5 := {| pol := scripted []; fut_ps := Some (7, 3, Some 2); known := []; pv := 5; tgt := None |} in
-  let c4 := {| pol := scripted []; fut_ps := Some (7, 3, None); known := []; pv := 4; tgt := None |} in
+  let c5 := {| pol := scripted []; fut_ps := Some (7, 3, Some 2); known := []; pv := 5; tgt := None; inline_retry := false |} in
+  let c4 := {| pol := scripted []; fut_ps := Some (7, 3, None); known := []; pv := 4; tgt := None; inline_retry := false |} in
   let s0 := init [1; 0] None [(0, PHealthy); (1, PHealthy)] (Some 1) false false 0 (Some 9) in
   (let '(s, evs) := exec c5 s0 [Start; Resp 0%nat (RUnprepared 7 10); Run 0%nat; Resp 1%nat (RPrepared 7); Run 0%nat;
                                 Resp 2%nat RRows] in
